@@ -311,15 +311,6 @@ def _args(case):
     return (start, stop), kw
 
 
-def draw_list(case, n):
-    mode, v = case["draws"]
-    if mode == "seed":
-        r = _random.Random(v)
-        return [r.random() for _ in range(n)]
-    pat = [unhex(x) for x in v]
-    return [pat[i % len(pat)] for i in range(n)]
-
-
 def run_impl(case):
     import random
     import boltons.iterutils as IU
@@ -327,24 +318,31 @@ def run_impl(case):
     mode, v = case["draws"]
     saved = random.random
     state = random.getstate()
+    rec = []
     if mode == "seed":
+        src = random.Random(v).random
         random.seed(v)
     else:
         pat = [unhex(x) for x in v]
         ctr = [0]
 
-        def fake():
+        def src():
             ctr[0] += 1
             return pat[(ctr[0] - 1) % len(pat)]
-        random.random = fake
+
+    def recording():
+        r = src()
+        rec.append(r)
+        return r
+    random.random = recording          # every draw the call makes is recorded
     try:
         if case["api"] == "list":
             try:
                 r = IU.backoff(*a, **kw)
             except ValueError:
-                return {"vals": [], "end": "ValueError"}
+                return {"vals": [], "end": "ValueError", "draws": [fhex(x) for x in rec]}
             assert type(r) is list
-            return {"vals": [fhex(x) for x in r], "end": "stop"}
+            return {"vals": [fhex(x) for x in r], "end": "stop", "draws": [fhex(x) for x in rec]}
         it = IU.backoff_iter(*a, **kw)
         vals, end = [], "more"
         for _ in range(case["take"]):
@@ -356,7 +354,7 @@ def run_impl(case):
             except ValueError:
                 end = "ValueError"
                 break
-        return {"vals": vals, "end": end}
+        return {"vals": vals, "end": end, "draws": [fhex(x) for x in rec]}
     finally:
         random.random = saved
         random.setstate(state)
@@ -380,7 +378,9 @@ def to_coq(case, obs):
     vals = obs["vals"]
     assert len(vals) <= 2600
     jf = jitter_float(case["jitter"])
-    draws = draw_list(case, len(vals) + 2) if jf != 0 else []
+    draws = [unhex(d) for d in obs.get("draws", [])][:6000]
+    if jf == 0:
+        draws = []
     p = "(mkP %s %s %s %s %s %s %s)" % (
         "ApiList" if case["api"] == "list" else "ApiIter", cfloat(case["start"]), cfloat(case["stop"]),
         _count(case["count"]), cfloat(case["factor"]), cfloat(fhex(jf)), cnat(case["take"]))
@@ -393,11 +393,11 @@ def corrupt(case, obs):
     if obs["vals"]:
         v = unhex(obs["vals"][-1])
         if v == v and v not in (INF, -INF):
-            bad = {"vals": list(obs["vals"]), "end": obs["end"]}
+            bad = {"vals": list(obs["vals"]), "end": obs["end"], "draws": obs.get("draws", [])}
             bad["vals"][-1] = fhex(math.nextafter(v, INF))
             return bad
     if obs["end"] == "ValueError":
-        return {"vals": [], "end": "stop"}
+        return {"vals": [], "end": "stop", "draws": []}
     return None
 
 
@@ -471,3 +471,55 @@ def shrink(case):
         yield var(call="kw")
     if case["draws"][0] == "seed":
         yield var(draws=["patch", [fhex(0.5)]])
+
+
+# ----------------------------------------------------------------------------
+# directed search after a broken tie: vary the disagreeing call along every axis the
+# property quantifies over (jitter sign/size, extreme draws, count kind, take, zero start,
+# stop one ulp around, factor), then fall back on the ordinary stream
+# ----------------------------------------------------------------------------
+def _vary(rng, base):
+    c = dict(base)
+    c["draws"] = list(base["draws"])
+    c["style"] = list(base["style"])
+    for _ in range(rng.randint(1, 3)):
+        ax = rng.choice(["jitter", "jitter", "draws", "draws", "count", "take", "start", "stop", "factor", "api"])
+        if ax == "jitter":
+            c["jitter"] = _jitter(rng, rng.random() < 0.85)
+        elif ax == "draws":
+            c["draws"] = _draws(rng)
+        elif ax == "count":
+            n = rng.randint(0, 40)
+            c["count"] = rng.choice([None, "omit", n, n, 0, 1, "repeat" if c["api"] == "iter" else n])
+        elif ax == "take":
+            c["take"] = rng.randint(0, 60) if c["api"] == "iter" else 0
+        elif ax == "start":
+            c["start"] = fhex(rng.choice([0.0, -0.0, unhex(c["start"]) / 2, ulp_step(unhex(c["start"]), rng.choice([-1, 1])), _start(rng)]))
+        elif ax == "stop":
+            st = unhex(c["stop"])
+            if st == st and st not in (INF, -INF):
+                c["stop"] = fhex(rng.choice([ulp_step(st, 1), ulp_step(st, -1), st * 2, st / 2, 1.0, 0.5]))
+        elif ax == "factor":
+            c["factor"] = fhex(rng.choice(FACTORS))
+        else:
+            c["api"] = rng.choice(["list", "iter"])
+            if c["api"] == "list":
+                c["take"] = 0
+                if c["count"] == "repeat":
+                    c["count"] = 5
+            else:
+                c["take"] = rng.randint(1, 40)
+    if c["api"] == "iter" and c["count"] in (None, "omit") and c["take"] > 2500:
+        c["take"] = 50
+    return c
+
+
+def search(rng, tier, n, broken):
+    bases = [b["case"] for b in broken if b.get("kind") == "correspondence" and isinstance(b.get("case"), dict)]
+    k = 0
+    if bases:
+        for _ in range(n // 2):
+            k += 1
+            yield _vary(rng, rng.choice(bases))
+    for c in generate(rng, tier, n - k):
+        yield c
